@@ -129,7 +129,11 @@ func (c *wsConn) nextMessage() {
 		close(c.incoming)
 		return
 	}
-	c.incoming <- r
+	select {
+	case c.incoming <- r:
+	case <-c.exiting:
+		// the connection loop is gone, nobody will take the frame
+	}
 }
 
 // nextWriter waits for writeLk and invokes the cb callback with WS message
@@ -713,7 +717,12 @@ func (c *wsConn) readFrame(ctx context.Context, r io.Reader) {
 		return
 	}
 
-	c.frameExecQueue <- buf
+	select {
+	case c.frameExecQueue <- buf:
+	case <-c.exiting:
+		// the connection loop (and with it the frame executor) is gone
+		return
+	}
 	if len(c.frameExecQueue) > 2*cap(c.frameExecQueue)/3 { // warn at 2/3 capacity
 		log.Warnw("frame executor queue is backlogged", "queued", len(c.frameExecQueue), "cap", cap(c.frameExecQueue))
 	}
